@@ -24,7 +24,7 @@ ASSUMPTIONS = [
     "Matrix.point_in_matrix_space / matrix_multiply are the SVG definitions (decided in C04).",
     "Point-valued fields are recognised by assignment from Point(...) in the class's constructors.",
 ]
-FLOORS = {"R02.1": 20, "R02.4": 8, "R02.5": 5}
+FLOORS = {"R02.1": 20, "R02.4": 8, "R02.5": 5, "R02.7": 6}
 
 SEGMENTS = ["Move", "Line", "Close", "QuadraticBezier", "CubicBezier", "Arc"]
 
@@ -60,6 +60,7 @@ def run(ctx):
     ctx.rule("R02.4", "lazy transform discipline: post-multiply, apply-then-reset, reify algebra")
     ctx.rule("R02.5", "transformed decomposition by multiplication")
     ctx.rule("R02.6", "coupled-field invariant of Arc axes")
+    ctx.rule("R02.7", "each Point field of a segment owns its own Point object")
     coverage(ctx)
     orientation(ctx)
     point_imul(ctx)
@@ -67,6 +68,7 @@ def run(ctx):
     reify_algebra(ctx)
     transformed_decomposition(ctx)
     coupled(ctx)
+    distinct_points(ctx)
 
 
 def coverage(ctx):
@@ -296,3 +298,51 @@ def coupled(ctx):
            fn.lineno,
            "prx/pry are evaluated as ORTHOGONAL semi-axis end points; a shear or rotated anisotropic scale maps them to conjugate (non-orthogonal) "
            "diameters, so every interior point of the transformed arc is off the true image")
+
+
+POINT_FIELDS = ("start", "end", "control", "control1", "control2", "center", "prx", "pry")
+
+
+def distinct_points(ctx):
+    """__imul__ maps every Point field in place, once.  If two fields hold the same Point object the object is mapped
+    twice (and the 'once' of R02.1 is false).  So wherever a segment class assigns its Point fields, every field must get
+    its own object: a Point(...) construction, or a local bound to one that feeds exactly one field."""
+    n = 0
+    for cname in SEGMENTS + ["Curve", "Linear"]:
+        ci = ctx.m.classes.get(cname)
+        if ci is None:
+            continue
+        for mname, fn in ci.methods.items():
+            if mname in ("__imul__", "reverse", "__copy__", "__eq__", "__getitem__"):
+                continue
+            assigns = []  # (fields, value node, line)
+            for st in ast.walk(fn):
+                if isinstance(st, ast.Assign):
+                    flds = []
+                    for t in st.targets:
+                        for tt in (t.elts if isinstance(t, ast.Tuple) else [t]):
+                            if isinstance(tt, ast.Attribute) and isinstance(tt.value, ast.Name) and tt.value.id == "self" and tt.attr in POINT_FIELDS:
+                                flds.append(tt.attr)
+                    if flds:
+                        assigns.append((flds, st.value, st.lineno))
+            if not assigns:
+                continue
+            bad = []
+            used_locals = {}
+            for flds, v, line in assigns:
+                if len(flds) > 1 and not isinstance(v, ast.Tuple):
+                    bad.append("fields %s assigned one object (line %d)" % (flds, line))
+                    continue
+                if isinstance(v, ast.Name):
+                    # a local: must itself be bound to a fresh Point and feed one field only
+                    used_locals.setdefault(v.id, []).append((flds[0], line))
+                elif isinstance(v, ast.Attribute) and isinstance(v.value, ast.Name) and v.value.id == "self" and v.attr in POINT_FIELDS and mname != "reverse":
+                    bad.append("self.%s = self.%s shares the object (line %d)" % (flds[0], v.attr, line))
+            for nm, uses in used_locals.items():
+                flds_u = sorted({f for f, _ in uses})
+                if len(flds_u) > 1:
+                    bad.append("local %s stored in fields %s" % (nm, flds_u))
+            n += 1
+            ctx.ob("R02.7", "%s.%s[field objects]" % (cname, mname), not bad, "; ".join(bad) or "%d point-field assignments, each its own object" % len(assigns), fn.lineno,
+                   "two Point fields of one segment share an object: an in-place matrix multiplication (arc *= M, path.reify()) maps that point more than once")
+    ctx.need(n >= 6, "R02.7", "too few field-assigning methods found (%d)" % n)
